@@ -13,7 +13,7 @@
    One module (cuckoo) carries data in the harness, so the pending data is an
    [option N] (which report); 0 = nothing observed.  Definitions only. *)
 From Coq Require Import List String NArith Bool.
-From YV Require Import Gen.CapiEffects.
+From YV Require Import Gen.CapiEffects Capi.LastError.
 Import ListNotations.
 Local Open Scope string_scope.
 
@@ -41,7 +41,7 @@ Definition pinit (g : N) : pstate := mkP None None g false.
 Inductive pstep :=
   | PSetData (d : N) (accepted : bool)          (* yrx_scanner_set_module_data *)
   | PSetOut (o : N) (accepted : bool)           (* yrx_scanner_set_module_output *)
-  | PSetGlob (g : N)                            (* yrx_scanner_set_global_int *)
+  | PSetGlob (g : N) (accepted : bool)          (* yrx_scanner_set_global_int: accepted in every state *)
   | PScanStep (k : scan_kind) (invalid_state : bool) (obs_data obs_out obs_glob : N).
 
 (* what a scanning call observes (0 = nothing) and the state it leaves *)
@@ -62,7 +62,7 @@ Definition pstep_ok (s : pstate) (st : pstep) : bool :=
   match st with
   | PSetData _ acc => Bool.eqb acc (negb (p_block s))
   | PSetOut _ acc => Bool.eqb acc (negb (p_block s))
-  | PSetGlob _ => true
+  | PSetGlob _ acc => acc
   | PScanStep k inv d o g =>
       let '(inv', d', o') := scan_obs s k in
       Bool.eqb inv inv' &&
@@ -78,7 +78,7 @@ Definition pstep_next (s : pstate) (st : pstep) : pstate :=
   match st with
   | PSetData d _ => if p_block s then s else mkP (Some d) (p_out s) (p_glob s) false
   | PSetOut o _ => if p_block s then s else mkP (p_data s) (Some o) (p_glob s) false
-  | PSetGlob g => mkP (p_data s) (p_out s) g (p_block s)
+  | PSetGlob g acc => if acc then mkP (p_data s) (p_out s) g (p_block s) else s
   | PScanStep k _ _ _ _ => scan_next s k
   end.
 Fixpoint preplay (s : pstate) (l : list pstep) : bool :=
@@ -87,8 +87,22 @@ Fixpoint preplay (s : pstate) (l : list pstep) : bool :=
   | st :: r => pstep_ok s st && preplay (pstep_next s st) r
   end.
 
+(* ---- which functions refuse which state ----
+   The functions that have a YRX_INVALID_STATE return path in the generated effect table, against the
+   set the header documents: the functions whose own comment (or the comment of yrx_scanner_scan_block,
+   for yrx_scanner_scan) says so, plus the other standard scanning call, yrx_scanner_scan_file
+   ("a scanner that was already in multi-block mode has been used as a standard scanner"). *)
+Definition has_invalid_state (f : fn) : bool :=
+  existsb (fun p => match fst p with RCode c => code_eqb c YRX_INVALID_STATE | ROther => false end) (paths_of f).
+Definition invalid_state_fns : list string := map fn_name (filter has_invalid_state all_fns).
+Definition documented_invalid_state : list string := header_invalid_state ++ ["yrx_scanner_scan_file"].
+Definition subset_s (a b : list string) : bool := forallb (fun x => existsb (String.eqb x) b) a.
+Definition state_guards_ok : bool :=
+  subset_s invalid_state_fns documented_invalid_state && subset_s documented_invalid_state invalid_state_fns.
+
 (* the documented behaviour, as a decidable condition on the generated table *)
 Definition pending_table_ok : bool :=
   forallb (fun k => reads_data (scan_fn k) && consumes_data (scan_fn k)) [KScan; KScanFile] &&
   forallb (fun k => negb (reads_data (scan_fn k)) && negb (consumes_data (scan_fn k))) [KScanBlock; KFinish] &&
-  has_op "yrx_scanner_set_module_data" "insert".
+  has_op "yrx_scanner_set_module_data" "insert" &&
+  state_guards_ok.
